@@ -5,10 +5,7 @@ open Sx
 type string = Stdlib.String.t
 type char = Stdlib.Char.t
 
-let site_name (s : site) : string =
-  match s with
-  | SiteUnwrap _ -> "unwrap" | SiteSlice _ -> "slice" | SiteAssert _ -> "assert"
-  | SiteDebugAssert _ -> "debug_assert" | SiteUnchecked _ -> "unchecked" | SiteOverflow _ -> "overflow"
+let site_name = Main_common.site_name
 
 (* render a res into the canonical result text *)
 let render_res (ok : 'a -> string) (err : 'e -> string) (r : ('e, 'a) res) : string =
